@@ -617,6 +617,16 @@ def step (st : St) (toks : List String) : St × String :=
       ({ st with objs := st.objs.insert name (.world { w with udpSinceBase := true }) },
         if !w.udp then "no-udp" else if w.listeners.serves && w.serverUp then "up=ok down=ok stray=0" else "up=diff down=diff stray=0")
     | _ => (st, "bad-op")
+  | "e2e.udpbind" :: name :: rest =>
+    -- n associations opened one after the other through a protocol that carries datagrams inside its transport: every
+    -- one is answered; the client keeps at most `clientUdpBindings` of them, and an evicted one gives its connection back
+    match st.objs.get? name, (kv rest "n").bind String.toNat? with
+    | some (.world w), some n =>
+      ({ st with objs := st.objs.insert name (.world { w with udpSinceBase := true }) },
+        if !w.udp then "no-udp"
+        else if w.listeners.serves && w.serverUp then s!"answered={n} links={if w.protocol == "shadowsocks" then 0 else min n Consts.clientUdpBindings}"
+        else s!"answered=0 links=0")
+    | _, _ => (st, "bad-op")
   | ["e2e.udpowner", name] =>
     -- two users, one session id: the association follows the user of each accepted datagram (reply sealed for its sender)
     match st.objs.get? name with
